@@ -518,3 +518,73 @@ func TestReplay(t *testing.T) {
 	}
 	check(t, t.Fatalf, c)
 }
+
+// TestC20ThroughTheMailbox: "delivery goes through the receiver's mailbox like any other message". The receiver is busy
+// (its handler waits at a gate) with k ordinary messages queued behind; a job of another actor (or its own) fires
+// meanwhile; more ordinary messages follow; then the gate opens. The scheduled message takes its place in the queue: it
+// is handled after everything that was queued before its firing instant and before everything sent after it.
+func TestC20ThroughTheMailbox(t *testing.T) {
+	rapid.Check(t, func(rt *rapid.T) {
+		before := rapid.IntRange(0, 3).Draw(rt, "queuedBefore")
+		after := rapid.IntRange(0, 2).Draw(rt, "sentAfter")
+		self := rapid.IntRange(0, 3).Draw(rt, "selfAddressed") == 0
+		loop := rapid.Bool().Draw(rt, "loop")
+		desc := fmt.Sprintf("receiver busy, %d messages queued before the firing instant, %d sent after it, job of %s, loop=%v", before, after, map[bool]string{true: "the receiver itself", false: "another actor"}[self], loop)
+		vt.SetCase(map[string]any{"test": "TestC20ThroughTheMailbox", "case": desc})
+		var order []int
+		res := vt.Run(t, func() {
+			w := world.New(world.Options{})
+			defer w.Close()
+			_, _ = w.Spawn(world.Spec{Name: "r"})
+			_, _ = w.Spawn(world.Spec{Name: "o"})
+			vt.Settle()
+			owner := "o"
+			if self {
+				owner = "r"
+			}
+			op := "once"
+			if loop {
+				op = "loop"
+			}
+			// the job is armed first (by a message the owner handles at once), then the receiver gets busy
+			w.Tell(owner, "", 0, []world.Step{{Op: op, To: "r", D: int64(100 * time.Millisecond), ID: 500, S: "job"}})
+			vt.Settle()
+			w.Tell("r", "", 1, []world.Step{{Op: "gate", S: "busy"}})
+			vt.Settle()
+			for i := 0; i < before; i++ {
+				w.Tell("r", "", 10+i, nil)
+			}
+			vt.Advance(150 * time.Millisecond) // the job fires once (a loop: at +100 ms; its next instant is +200 ms)
+			for i := 0; i < after; i++ {
+				w.Tell("r", "", 20+i, nil)
+			}
+			vt.Settle()
+			w.Open("busy")
+			vt.Settle()
+			tr, _ := w.Snapshot()
+			for _, e := range tr {
+				if e.Actor == "/r" && e.Kind == "msg" && e.ID != 0 {
+					order = append(order, e.ID)
+				}
+			}
+		})
+		if res.Panic != nil {
+			rt.Fatalf("harness: %v\n%s", res.Panic, res.Stack)
+		}
+		want := []int{1}
+		for i := 0; i < before; i++ {
+			want = append(want, 10+i)
+		}
+		want = append(want, 500)
+		for i := 0; i < after; i++ {
+			want = append(want, 20+i)
+		}
+		vstat.Case(vstat.Hash(desc), before > 0, []string{"through-the-mailbox"}, func() any { return desc })
+		if fmt.Sprint(order) != fmt.Sprint(want) {
+			sig, detail := "C20/through-the-mailbox|order", fmt.Sprintf("%s: the receiver handled %v, expected %v (500 = the scheduled message)", desc, order, want)
+			if !vstat.Fail(sig, detail, nil) {
+				rt.Fatalf("VERIF-FAIL sig=%s :: %s", sig, detail)
+			}
+		}
+	})
+}
